@@ -70,12 +70,12 @@ pub open spec fn udp_image(v: AddrV, payload: Seq<u8>) -> Seq<u8> {
         },
 //@ end
 
-//@ hint decode_socks_frame before `let body = &mut frame.body;`
+//@ hint decode_socks_frame before `&mut frame.body`
         let ghost b0 = frame.body@;
         let ghost sid0 = frame.session_id;
 //@ end
 
-//@ hint decode_socks_frame before `let target: TargetAddress = match atyp {`
+//@ hint decode_socks_frame before `match atyp`
         let ghost a0 = b0.skip(3);
         proof {
             assert(body@ =~= a0.skip(1));
@@ -122,7 +122,7 @@ pub open spec fn udp_image(v: AddrV, payload: Seq<u8>) -> Seq<u8> {
         ret.is_ok() ==> ret.unwrap()@ == udp_image(opt_ta_view(frame.addr), frame.body@),
 //@ end
 
-//@ hint encode_socks_frame before `let bytes = domain.vf_as_bytes();`
+//@ hint encode_socks_frame before `domain.vf_as_bytes()`
                 proof { axiom_string_utf8(*domain); }
 //@ end
 
